@@ -214,3 +214,42 @@ def step(h):
     h.check('returns-None-iff-not-stopped-afterwards', 'iff(r is None, not (e1 >= b or g1 >= a or early or tl))',
             r=r, e1=e1, g1=g1, a=a, b=b, early=early, tl=tl)
     h.check('stopped-solver-is-finalized', 'implies(r is not None and begun == 1, live is False)', r=r, begun=begun, live=h.field(s, '_live'))
+
+
+# ---------------------------------------------------------------------------- C04: the counters a user reads
+@contract('C04/AbstractSolver.evaluations', ['C04', 'C05'], A + 'AbstractSolver.__evaluations')
+def evaluations_getter(h):
+    """solver.evaluations is the shared call counter incremented by the wrapped cost (wrap_function contract),
+    whatever evaluation monitor is attached and however many records it holds"""
+    s, stepmon, fc, epoch = _mk(h)
+    nev = h.int('evalmon_records')
+    h.assume('nev >= 0', nev=nev)
+    em = h.obj(MON, _x=h.list_real('evalmon_x', n=nev), _y=h.list_real('evalmon_y', n=nev), _id=h.clist([]), _info=h.clist([]),
+               k=None, _npts=None, label='ChiSquare')
+    h.set_field(s, '_evalmon', em)
+    v = h.getattr(s, 'evaluations')
+    h.check('evaluations-is-the-call-counter', 'v == fc', v=v, fc=fc)
+
+
+@contract('C04/AbstractSolver.generations', ['C04', 'C05'], A + 'AbstractSolver.__generations')
+def generations_getter(h):
+    s, stepmon, fc, epoch = _mk(h)
+    n = h.len(h.field(stepmon, '_x'))
+    v = h.getattr(s, 'generations')
+    h.check('generations-is-completed-iterations', 'v == (n - 1 if n >= 1 else 0)', v=v, n=n)
+
+
+@contract('C04/AbstractSolver.best', ['C04', 'C01'], A + 'AbstractSolver.__bestEnergy')
+def best_getters(h):
+    """bestEnergy / bestSolution report the decoupled all-time best when there is one, else member 0"""
+    s, stepmon, fc, epoch = _mk(h)
+    k = h.choice('decoupled', [False, True])
+    if k:
+        be, bs = h.real('bestEnergy', inf=True), h.vec('best', 2)
+        h.set_field(s, '_bestEnergy', be)
+        h.set_field(s, '_bestSolution', bs)
+        h.check('best-is-the-stored-best', 'same(a, bs) and b == be', a=h.getattr(s, 'bestSolution'), b=h.getattr(s, 'bestEnergy'), bs=bs, be=be)
+    else:
+        h.check('best-defaults-to-member-0', 'same(a, p0) and b == e0', a=h.getattr(s, 'bestSolution'), b=h.getattr(s, 'bestEnergy'),
+                p0=h.ev('p[0]', p=h.field(s, 'population')), e0=h.ev('e[0]', e=h.field(s, 'popEnergy')))
+    h.check('Solution()-is-bestSolution', 'same(a, b)', a=h.call(h.getattr(s, 'Solution')), b=h.getattr(s, 'bestSolution'))
